@@ -104,6 +104,7 @@ func C15(ctx *core.Ctx) {
 	noDoubleAcquire(ctx, r, "C15.R1", "fAdapterTransport")
 
 	c15ReopenableClose(ctx, r)
+	c15OpenCloseAgree(ctx, r)
 	// ---- reader loop discovery ------------------------------------------------------
 	open := r.Fn("C15.R2", "(*fAdapterTransport).Open")
 	closeFn := r.Fn("C15.R4", "(*fAdapterTransport).close")
@@ -1030,4 +1031,127 @@ func c15ReopenableClose(ctx *core.Ctx, r *RT) {
 	if n == 0 {
 		ctx.Discharge("C15.R7", "runtime › no re-armed close channel outside the adapter transport", "", "nothing to check")
 	}
+}
+
+// c15OpenCloseAgree — C15.R8: Open and Close agree on what "open" means. Where
+// Open refuses with ALREADY_OPEN because a pointer field F of the transport is
+// non-nil, Close may return nil without resetting F only on the edge F == nil:
+// a weaker test (e.g. !IsOpen(), which is also false while the connection is
+// temporarily down) lets Close report success while the transport stays
+// subscribed — no close cause is published and Open answers ALREADY_OPEN for
+// ever after.
+func c15OpenCloseAgree(ctx *core.Ctx, r *RT) {
+	ctx.Rule("C15.R8", "Open and Close agree on the open state: Close returns nil without resetting the field behind ALREADY_OPEN only where that field is nil", 1)
+	already := constInt(r, "TRANSPORT_EXCEPTION_ALREADY_OPEN")
+	n := 0
+	for _, open := range r.Fns {
+		if open.Name() != "Open" || open.Signature.Recv() == nil || len(open.Params) == 0 {
+			continue
+		}
+		// the field whose non-nil test leads to the ALREADY_OPEN return
+		field := ""
+		for _, c := range ssax.Calls(open) {
+			if c.ShortName() != "NewTTransportException" || len(c.Common.Args) == 0 {
+				continue
+			}
+			if k, ok := ssax.ConstInt(c.Common.Args[0]); !ok || k != already {
+				continue
+			}
+			for b := c.Instr.Block(); b != nil && b.Idom() != nil; b = b.Idom() {
+				d := b.Idom()
+				iff, isIf := d.Instrs[len(d.Instrs)-1].(*ssa.If)
+				if !isIf || len(b.Preds) != 1 || b.Preds[0] != d {
+					continue
+				}
+				if f, neq := nilTestField(iff.Cond, open.Params[0]); f != "" && ((neq && d.Succs[0] == b) || (!neq && d.Succs[1] == b)) {
+					field = f
+				}
+			}
+		}
+		if field == "" {
+			continue
+		}
+		var closeFn *ssa.Function
+		for _, g := range r.Fns {
+			if g.Name() == "Close" && g.Signature.Recv() != nil && sameNamed(g.Signature.Recv().Type(), open.Signature.Recv().Type()) {
+				closeFn = g
+			}
+		}
+		if closeFn == nil || len(closeFn.Params) == 0 {
+			continue
+		}
+		n++
+		resets := func(in ssa.Instruction) bool {
+			st, ok := in.(*ssa.Store)
+			return ok && fieldNameOfAddr(st.Addr) == field
+		}
+		bad := ""
+		for ret := range ReturnedValues(closeFn) {
+			if !nilErrorReturn(ret) {
+				continue
+			}
+			// a path to this return that never resets the field …
+			isThis := func(in ssa.Instruction) bool { return in == ssa.Instruction(ret) }
+			if ssax.PathFrom(closeFn, nil, isThis, resets) == nil {
+				continue
+			}
+			// … is fine only under the edge field == nil
+			under := false
+			for b := ret.Block(); b != nil && b.Idom() != nil; b = b.Idom() {
+				d := b.Idom()
+				iff, isIf := d.Instrs[len(d.Instrs)-1].(*ssa.If)
+				if !isIf || len(b.Preds) != 1 || b.Preds[0] != d {
+					continue
+				}
+				cond := iff.Cond
+				// a predicate helper of the package that returns exactly the nil test
+				if call, isCall := cond.(*ssa.Call); isCall {
+					if h := call.Call.StaticCallee(); h != nil && h.Pkg == r.Pkg && len(h.Params) > 0 && len(call.Call.Args) > 0 && ssax.Strip(call.Call.Args[0]) == ssa.Value(closeFn.Params[0]) {
+						for _, rv := range ReturnedValues(h) {
+							if f, neq := nilTestField(rv[0], h.Params[0]); f == field && len(ReturnedValues(h)) == 1 {
+								if (neq && d.Succs[1] == b) || (!neq && d.Succs[0] == b) {
+									under = true
+								}
+							}
+						}
+					}
+				}
+				if f, neq := nilTestField(cond, closeFn.Params[0]); f == field && ((neq && d.Succs[1] == b) || (!neq && d.Succs[0] == b)) {
+					under = true
+				}
+			}
+			if !under {
+				bad = r.IPos(ret)
+			}
+		}
+		ctx.Check(bad == "", "C15.R8", ssax.Name(closeFn)+" › returns nil without resetting "+field+" only where "+field+" is nil", fnPos(r, closeFn), "every nil return either follows a store to "+field+" or sits on the edge "+field+" == nil",
+			"Close can return nil at "+bad+" while "+field+" is still set (the guard is weaker than Open's ALREADY_OPEN test, e.g. it also holds while the connection is temporarily down): the transport stays subscribed, no close cause is published on Closed(), and every later Open answers ALREADY_OPEN — it can never be reopened")
+	}
+	if n == 0 {
+		ctx.Discharge("C15.R8", "runtime › no transport guards Open with a pointer field", "", "nothing to check")
+	}
+}
+
+// nilTestField: cond is `recv.F != nil` (neq=true) or `recv.F == nil`.
+func nilTestField(cond ssa.Value, recv ssa.Value) (field string, neq bool) {
+	bo, ok := ssax.Strip(cond).(*ssa.BinOp)
+	if !ok || (bo.Op != token.EQL && bo.Op != token.NEQ) {
+		return "", false
+	}
+	x, y := bo.X, bo.Y
+	if k, isK := x.(*ssa.Const); isK && k.IsNil() {
+		x, y = y, x
+	}
+	if k, isK := y.(*ssa.Const); !isK || !k.IsNil() {
+		return "", false
+	}
+	ld, isLd := ssax.Strip(x).(*ssa.UnOp)
+	if !isLd || ld.Op != token.MUL {
+		return "", false
+	}
+	fa, isFA := ld.X.(*ssa.FieldAddr)
+	if !isFA || ssax.Strip(fa.X) != recv {
+		return "", false
+	}
+	return fieldNameOfAddr(fa), bo.Op == token.NEQ
 }
